@@ -80,11 +80,11 @@ contract(
         "is_pointwise_min": f"len(result[1]) == p and forall(range(p), lambda j: result[1][j] == {_MIN3('(j + 1)')} - {_MIN3('j')})",
     },
     ghost=[
-        ("after:dense_penalties = dense_alpha + np.cumsum(dense_betas)",
+        ("after:dense_penalties = *",
          "assert forall(range(p), lambda q: using(L_cumsum_tel(lam('real', p, lambda i: dense_penalties[i] - dense_alpha), dense_betas, lam('real', p + 1, lambda i: 0 * i)), dense_penalties[q] == dense_alpha))"),
-        ("after:sparse_penalties = sparse_alpha + np.cumsum(sparse_betas)",
+        ("after:sparse_penalties = *",
          f"assert forall(range(p), lambda q: using(L_cumsum_tel(lam('real', p, lambda i: sparse_penalties[i] - sparse_alpha), sparse_betas, lam('real', p + 1, lambda i: i * (2 * scale * LOG(n_params_per_variable * p)))), sparse_penalties[q] == {_PS('(q + 1)')}))"),
-        ("after:intermediate_penalties = intermediate_alpha + np.cumsum(intermediate_betas)",
+        ("after:intermediate_penalties = *",
          f"assert forall(range(p), lambda q: using(L_cumsum_tel(lam('real', p, lambda i: intermediate_penalties[i] - intermediate_alpha), intermediate_betas, lam('real', p + 1, lambda i: {_PI('i')})), intermediate_penalties[q] == {_PI('(q + 1)')}))"),
     ],
     props=["C15"],
